@@ -167,6 +167,8 @@ func runBatchScenario(dir string, sc batchScenario) (results []string, counters 
 	case <-time.After(30 * time.Second):
 		return results, nil, groups, nil, nil, "callers did not return within 30s"
 	}
+	// a late timer must not re-run the batch: wait past MaxBatchDelay before reading the result
+	time.Sleep(time.Duration(min(sc.DelayMs, 300)+30) * time.Millisecond)
 	counters = make([]int, sc.N)
 	_ = db.View(func(tx *bolt.Tx) error {
 		b := tx.Bucket([]byte("c"))
@@ -224,7 +226,10 @@ func batchEngine() {
 			}
 			sc.Scripts = append(sc.Scripts, s)
 		}
-		switch rng.Intn(4) {
+		switch rng.Intn(5) {
+		case 4:
+			// no delay at all: the timer fires at once, racing with the "batch full" trigger
+			sc.MaxSize, sc.DelayMs = []int{1, 1, 2, sc.N}[rng.Intn(4)], 0
 		case 0:
 			sc.MaxSize, sc.DelayMs = sc.N, 300 // one batch, triggered by size
 		case 1:
